@@ -26,7 +26,7 @@ def put(pid, prelude_add, items, head=None, tail=""):
     open(path, "w").write(src + "\n" + MARK + "\n" + body + tail)
 
 SF = "Parser.StreamFinal"
-which = sys.argv[1:] or ["C02", "C03", "C04", "C05", "C08", "C09", "C10", "C11", "C18"]
+which = sys.argv[1:] or ["C02", "C03", "C04", "C05", "C07", "C08", "C09", "C10", "C11", "C12", "C18"]
 
 if "C02" in which:
     put("C02", "Parser.ReqWire Parser.ReqTargets " + SF, [
@@ -174,8 +174,38 @@ if "C10" in which:
          "order, number of writers, data, transport write script and client input: the log is a concatenation of COMPLETE lock "
          "tenures (one whole record of one writer, or one whole flush of parser replies) followed by the part of the current "
          "holder's tenure; per writer, payloads in log order ++ record in progress ++ unwritten data = the data it was given; a "
-         "writer not holding the lock has written nothing of its record in progress", "writers_exclusive", "C10_writers_exclusive"),
-        ("all writers done, none failed: the log is exactly a sequence of complete tenures carrying every writer's data", "writers_complete", "C10_writers_complete"),
-        ("a writer polled while someone else holds the lock changes nothing", "writer_waits", "C10_writer_waits"),
-        ("the request's flush polled while a writer holds the lock changes nothing", "request_waits_partial", "C10_request_waits"),
+         "writer not holding the lock has written nothing of its record in progress", "writers_exclusive", "C10_writers_exclusive", ["writers_exclusive_stmt"]),
+        ("all writers done, none failed: the log is exactly a sequence of complete tenures carrying every writer's data", "writers_complete", "C10_writers_complete", ["writers_complete_stmt"]),
+        ("a writer polled while someone else holds the lock changes nothing", "writer_waits", "C10_writer_waits", ["writer_waits_stmt"]),
+        ("the request's flush polled while a writer holds the lock changes nothing", "request_waits_partial", "C10_request_waits", ["request_waits_partial_stmt"]),
+    ])
+
+if "C07" in which:
+    put("C07", "Codec.Varint Codec.NV Codec.Vars Parser.ReqWire Parser.ReqTargets Async.ConnTotal Async.ConnReads Async.LoopTargets Async.LoopProofs", [
+        ("'exactly that request': Token::parse_request IS a read schedule of the request parser whose chunks are the transport reads — "
+         "whatever the transport does (any read sizes, Pending, any write pattern)", "parse_request_sched", "C07_parse_request_is_a_schedule", ["parse_request_sched_stmt"]),
+        ("a reused connection's parser (leftover L of the previous request in its buffer) behaves exactly like a fresh parser fed L first", "leftover_as_fed", "C07_leftover_as_fed", ["leftover_as_fed_stmt"]),
+        ("MAIN: if the client's stream (leftover of the previous request ++ everything still to be delivered) begins with a well-formed "
+         "preamble (as in C01: any junk, cuts, padding; pairs within the documented bound) and parse_request hands over to a handler, the "
+         "request the handler sees has exactly the transmitted id, role, flags and environment; exactly the replies owed for the "
+         "preamble's management records have been written; and the stream parser starts with exactly the bytes that followed the "
+         "preamble — for every transport behaviour", "handler_sees_request", "C07_handler_sees_exactly_the_request", ["handler_sees_request_stmt"]),
+    ], tail='''(* non-vacuity of C07_handler_sees_exactly_the_request: a concrete connection (B = 160, a GetValues junk record inside
+   the preamble, leftover = 5 bytes, two client segments, Pending reads and writes) satisfies every hypothesis *)
+Example C07_handler_sees_example : forall s0 w', lp_run = Ok (inl s0) w' ->
+  sreq s0 = mkReq 9 ROLE_Responder 1 lp_pairs /\\ wlog w' = preamble_replies 5 lp_pw /\\ raw_bytes s0 ++ remaining w' = lp_trailing.
+Proof. exact handler_sees_request_instance. Qed.
+''')
+
+if "C12" in which:
+    put("C12", "Codec.Varint Codec.NV Codec.Vars Parser.ReqWire Parser.ReqTargets Parser.AbsStream Parser.StreamSpec Parser.StreamRefine Parser.StreamInv Async.ConnReads Async.LoopTargets Async.LoopProofs", [
+        ("'no handler is invoked for a request whose preamble did not arrive completely': if everything the client will ever deliver "
+         "(leftover included) is a PROPER prefix of a well-formed preamble — EOF, a transport error or a block anywhere inside it — "
+         "parse_request never hands over to a handler, whatever the read and write patterns", "no_handler_for_partial", "C12_no_handler_for_partial_preamble", ["no_handler_for_partial_stmt"]),
+        ("between requests a transport EOF ends the connection quietly (ConnectionReset), a read error is returned as it is, and the "
+         "read happens only after the replies were written", "parse_request_read_after_flush", "C12_parse_request_eof"),
+        ("'an unexpected-EOF error rather than a successful short or empty read': a successful empty read into a non-empty buffer "
+         "happens only at the stream's end (terminator seen), never because the transport ran dry", "poll_input_zero_is_eof", "C12_empty_read_means_end_of_stream"),
+        ("the full account of one poll (error cases: UnexpectedEof only with no client byte left or a full buffer; the transport's "
+         "own error; a sticky parser error)", "poll_input_reads", "C12_poll_input_cases"),
     ])
